@@ -3,6 +3,7 @@ package props
 import (
 	"fmt"
 	"go/token"
+	"os"
 
 	"golang.org/x/tools/go/ssa"
 
@@ -19,6 +20,8 @@ func c13(c *core.Check) {
 
 	r2 := c.Rule("R2", "wrapTable's slot assignment: GridX is the cursor after skipping the columns occupied in this row; the cursor then advances by Colspan; Rowspan is clamped to the rows left in the group (all of them for 0); the columns marked as occupied in the spanned rows are those from GridX to GridX+Colspan", 5)
 	tableSlotRule(c, r2)
+
+	c13Spacing(c)
 
 	r3 := c.Rule("R3", "the table layout code mirrors its side-symmetric assignments, sums margins, paddings and borders with consistent sides, and passes its named arguments in order", 6)
 	tfiles := map[string]bool{"tables.go": true}
@@ -223,5 +226,76 @@ func tableSlotRule(c *core.Check, r2 *core.Rule) {
 			}
 		})
 		r2.Cond(marked, name+" | the spanned rows mark the cell's columns", p.Pos(fn.Pos()), "columns GridX … GridX+Colspan-1 are marked occupied in every spanned row", "the columns marked as occupied in the spanned rows are not exactly those of the cell")
+	}
+}
+
+// c13Spacing: border-spacing only exists in the separated-borders model.
+func c13Spacing(c *core.Check) {
+	p := c.Prog
+	r := c.Rule("R4", "border-spacing applies to the separated-borders model only (CSS 2.1 §17.6.1): every read of the border-spacing property in the layout, box and drawing code is unreachable when the border-collapse value tested in the same function is `collapse` (otherwise collapsed tables are laid out with gaps that are not drawn, and spanning cells no longer cover their columns)", 4)
+	n := 0
+	for _, pkg := range []string{"html/layout", "html/document", "html/boxes"} {
+		for _, fn := range p.FuncsOfPkg(pkg) {
+			fn := fn
+			var reads []*ssa.Call
+			core.Instrs(fn, func(in ssa.Instruction) {
+				if call, ok := in.(*ssa.Call); ok && call.Call.IsInvoke() && call.Call.Method.Name() == "GetBorderSpacing" {
+					reads = append(reads, call)
+				}
+			})
+			if len(reads) == 0 {
+				continue
+			}
+			// scenario: the collapsing model
+			assign := map[ssa.Value]bool{}
+			for _, a := range core.CondAtoms(fn) {
+				b, ok := core.ResolveLoad(a).(*ssa.BinOp) // `collapse := … == "collapse"` captured by a closure is a cell
+				if !ok || (b.Op != token.EQL && b.Op != token.NEQ) {
+					continue
+				}
+				x, y := b.X, b.Y
+				if _, isC := core.Unwrap(x).(*ssa.Const); isC {
+					x, y = y, x
+				}
+				s, isS := core.ConstStr(core.Unwrap(y))
+				call, isCall := core.Unwrap(x).(*ssa.Call)
+				if !isS || !isCall || !call.Call.IsInvoke() || call.Call.Method.Name() != "GetBorderCollapse" {
+					continue
+				}
+				assign[a] = (s == "collapse") == (b.Op == token.EQL)
+			}
+			for i, rd := range reads {
+				n++
+				key := fmt.Sprintf("%s | GetBorderSpacing() #%d", core.FuncName(fn), i+1)
+				if len(assign) == 0 {
+					r.Fail(key, p.Pos(rd.Pos()), "border-spacing is read in a function that never tests border-collapse")
+					continue
+				}
+				reach := core.ForwardReach(fn.Blocks[0], assign, nil)
+				if os.Getenv("WRVERIF_DEBUG_C13") != "" {
+					free := core.ForwardReach(fn.Blocks[0], nil, nil)
+					fmt.Fprintln(os.Stderr, "c13 spacing:", key, "block", rd.Block().Index, "reach", reach[rd.Block()], "free", free[rd.Block()], len(reach), len(free), len(fn.Blocks))
+					for _, b := range fn.Blocks {
+						if free[b] && !reach[b] {
+							fmt.Fprint(os.Stderr, " ", b.Index)
+						}
+					}
+					fmt.Fprintln(os.Stderr)
+					for _, b := range fn.Blocks {
+						if !free[b] {
+							for _, pr := range b.Preds {
+								if free[pr] {
+									fmt.Fprintln(os.Stderr, "  frontier: block", b.Index, b.Comment, "pred", pr.Index, pr.Comment, "dominates:", b.Dominates(pr), pr.Instrs[len(pr.Instrs)-1])
+								}
+							}
+						}
+					}
+				}
+				r.Cond(!reach[rd.Block()], key, p.Pos(rd.Pos()), fmt.Sprintf("unreachable in the collapsing model (%d tests of border-collapse decide it)", len(assign)), "border-spacing is read on a path taken by tables with border-collapse: collapse")
+			}
+		}
+	}
+	if n == 0 {
+		r.Anchor("reads of GetBorderSpacing")
 	}
 }
